@@ -45,7 +45,7 @@ type Cfg struct {
 	// rule is replaced by the same rule with a long one (or cleared and loaded again). If the node is still ejected
 	// after the load, it is still ejected when the interval of the REPLACED rule has passed.
 	// [interval before s, interval after s, a request between the load and the old deadline (0/1), how: 0 LoadRules, 1 LoadRuleOfResource, 2 ClearRules+LoadRules,
-	// 3 ClearRules, then the very same rule object is loaded again and the node fails again shortly before the old timer is due, 4 the same with ClearRuleOfResource, then LoadRules, 5 the recycler consumes its queue only after ClearRules (timer armed while there is no rule), then LoadRules, 6 / 7 a rule with ACTIVE recovery is replaced by a passive one / cleared while its check function is probing an ejected node]
+	// 3 ClearRules, then the very same rule object is loaded again and the node fails again shortly before the old timer is due, 4 the same with ClearRuleOfResource, then LoadRules, 5 the recycler consumes its queue only after ClearRules (timer armed while there is no rule), then LoadRules, 6 / 7 a rule with ACTIVE recovery is replaced by a passive one / cleared while its check function is probing an ejected node, 8 the retryer takes a node queued under the active rule from its queue after a passive one was loaded]
 	Recycle []int64 `json:"recycle,omitempty"`
 }
 
@@ -99,7 +99,7 @@ func (P) Gen(rng *sim.Rng, tier string) *harness.Case {
 		cfg.Verdicts = []int64{int64(rng.Range(1, int(d)-1)), d + int64(rng.Range(0, 500)), int64(rng.Range(2, 10)), d, int64(rng.Intn(2))}
 	}
 	if len(cfg.Budget) == 0 && len(cfg.Verdicts) == 0 && rng.Chance(0.02) {
-		cfg.Recycle = []int64{int64(rng.Range(1, 5)), int64([]int{30, 600, 3600}[rng.Intn(3)]), int64(rng.Intn(2)), int64(rng.Intn(8))}
+		cfg.Recycle = []int64{int64(rng.Range(1, 5)), int64([]int{30, 600, 3600}[rng.Intn(3)]), int64(rng.Intn(2)), int64(rng.Intn(9))}
 	}
 	n := rng.Range(6, 24)
 	for i := 0; i < n; i++ {
@@ -1069,7 +1069,7 @@ func execVerdicts(cfg *Cfg, o *harness.Outcome, env *harness.Env) {
 // execRecycle: see Cfg.Recycle.
 func execRecycle(cfg *Cfg, o *harness.Outcome, env *harness.Env) {
 	a, b, between, how := cfg.Recycle[0], cfg.Recycle[1], cfg.Recycle[2] == 1, cfg.Recycle[3]
-	if a <= 0 || a > 10 || b <= a+1 || b > 100000 || how < 0 || how > 7 {
+	if a <= 0 || a > 10 || b <= a+1 || b > 100000 || how < 0 || how > 8 {
 		return
 	}
 	const resName, bad, good = "res-0", "10.0.0.1:80", "10.0.0.2:80"
@@ -1122,6 +1122,33 @@ func execRecycle(cfg *Cfg, o *harness.Outcome, env *harness.Env) {
 		probe(good, false)
 		probe(bad, true)
 		probe(bad, true)
+		if how == 8 {
+			// The request that finds the node ejected queues it for the retryer, which is behind: it takes the node
+			// from its queue only after the rule has been replaced by one with PASSIVE recovery (which, to be heard
+			// if it is called, carries a check function as well). No active recovery starts under that rule.
+			harness.Call(o, "C13.probe-panicked", 0, func() {
+				if e, _ := sentinel.Entry(resName, sentinel.WithSlotChain(sc)); e != nil {
+					sentinel.TraceCallee(e, good)
+					e.Exit()
+				}
+			})
+			passiveCalls := 0
+			passive := mk(3600)
+			passive.RecoveryIntervalMs, passive.MaxRecoveryAttempts = 1000, 3
+			passive.RecoveryCheckFunc = func(string) bool { passiveCalls++; return false }
+			harness.Call(o, "C13.load-panicked", 0, func() { _, _ = outlier.LoadRules([]*outlier.Rule{passive}) })
+			harness.Call(o, "C13.probe-panicked", 0, func() { drain(); tq.AdvanceMs(10000, drain) })
+			if o.Failed() {
+				return
+			}
+			o.Nontrivial = true
+			o.Probe("outlier_retry_task_of_a_replaced_rule_consumed_under_a_passive_rule")
+			if calls+passiveCalls != 0 {
+				o.KnownHit("C13.retry-task-of-a-replaced-rule-starts-active-recovery-under-a-passive-rule", "C13.replaced-rule-still-decides", 0, "outlier rule with active recovery: a request found a node ejected and queued it for the retryer; before the retryer took it from its queue the rule was replaced by one with PASSIVE recovery (EnableActiveRecovery false). In the 10 s after that load had returned a recovery check function was called %d times (the replaced rule's %d, the one the passive rule carries %d): the loop of active recovery runs under a rule that has none",
+					calls+passiveCalls, calls, passiveCalls)
+			}
+			return
+		}
 		probe(good, false) // finds the node ejected: handed to the retryer
 		harness.Call(o, "C13.probe-panicked", 0, func() { tq.AdvanceMs(2500, drain) })
 		if o.Failed() || calls == 0 {
